@@ -80,8 +80,8 @@ let just_case tg ws base parents headers fblk fnum tblk tnum pcs ps obs =
           let spec64 = justification_valid_spec vs hs fhash fnum thash tnum pcs64 in
           let per = List.map2 (fun p o ->
             let (r32, r64) = (match String.split_on_char '/' o with [a; b] -> (a, b) | _ -> ("?", "?")) in
-            let m32 = jo_str (verify_finalizes vs hs fhash fnum thash tnum (permute pcs32 p)) in
-            let m64 = jo_str (verify_finalizes vs hs fhash fnum thash tnum (permute pcs64 p)) in
+            let m32 = jo_str (verify_finalizes_w (n_of_int 32) vs hs fhash fnum thash tnum (permute pcs32 p)) in
+            let m64 = jo_str (verify_finalizes_w (n_of_int 64) vs hs fhash fnum thash tnum (permute pcs64 p)) in
             (r32, r64, m32, m64)) orders outs in
           let width_free = List.for_all (fun (a, b, _, _) -> (a = "ok") = (b = "ok")) per in
           let accepts = uniq (List.concat_map (fun (a, b, _, _) -> [a = "ok"; b = "ok"]) per) in
@@ -163,6 +163,7 @@ let check_fields f inp obs =
         else begin
           let amb = ghost_ambiguous vs hs pcs in
           let shift_free = ref true in
+          let widths_agree = ref true in
           let spec = commit_valid_spec vs hs thash tnum pcs in
           let per = List.map2 (fun p o ->
             let pp = permute pcs p in
@@ -170,6 +171,11 @@ let check_fields f inp obs =
               | [a; b] -> (a, b, b) | [a; b; c] -> (a, b, c) | _ -> ("?", "?", "?")) in
             shift_free := !shift_free && r64s = r64;
             let m = vr_str (validate_commit vs hs thash tnum pp) in
+            (* the model at the two widths (GHOST number = base + depth modulo 2^w): C19_width_free says
+               they are the unbounded model for numbers consistent with the tree *)
+            widths_agree := !widths_agree
+              && vr_str (validate_commit_w (n_of_int 32) vs hs thash tnum pp) = m
+              && vr_str (validate_commit_w (n_of_int 64) vs hs thash tnum pp) = m;
             let p32 = (match validate_commit_prefix (n_of_int 32) vs hs thash tnum pp with PV o -> vr_str o | PUnmodelled -> "unmodelled") in
             let p64 = (match validate_commit_prefix (n_of_int 64) vs hs thash tnum pp with PV o -> vr_str o | PUnmodelled -> "unmodelled") in
             (r32, r64, m, p32, p64)) orders outs in
@@ -177,7 +183,7 @@ let check_fields f inp obs =
           let valids = uniq (List.concat_map (fun (a, b, _, _, _) -> [valid_of a; valid_of b]) per) in
           let order_free = (List.length valids = 1) in
           let spec_ok = List.for_all (fun (a, b, _, _, _) -> valid_of a = Some spec && valid_of b = Some spec) per in
-          let eq = List.for_all (fun (a, b, m, _, _) -> m = "ambiguous" || (a = m && b = m)) per in
+          let eq = List.for_all (fun (a, b, m, _, _) -> m = "ambiguous" || (a = m && b = m)) per && !widths_agree in
           let prefix_like = List.for_all (fun (a, b, _, p32, p64) -> a = p32 && b = p64) per in
           let excess = excess_equivocation vs pcs in
           let prop = width_free && order_free && (excess || spec_ok) in
@@ -194,6 +200,7 @@ let check_fields f inp obs =
               @ (if has_eqv then ["vc-equivocation"] else [])
               @ (if nonmember then ["vc-non-member"] else [])
               @ (if distinct_targets > 1 then ["vc-several-targets"] else ["vc-one-target"])
+              @ (if List.exists (fun p -> p.p_num = n_of_hex "ffffffff") pcs then ["vc-number-2^32-1"] else [])
               @ (if List.length (uniq (List.map fst ws)) < List.length ws then ["vc-repeated-voter-id"] else []));
             detail = (if prop && eq then "" else
               Printf.sprintf "model=%s spec-valid=%b%s%s%s%s" m0 spec
